@@ -25,6 +25,30 @@ BIG = "memref<64xi8>"
 PASSES = "construct-pipeline,pipeline-duplicate-buffers,unroll-pipeline"
 
 
+def run_real(src):
+    """the three real passes, in process, with verification after each (like snax-opt); returns the module"""
+    from snaxc.transforms import get_all_snax_passes
+    ctx = snaxrun.fresh_ctx()
+    from xdsl.parser import Parser
+    module = Parser(ctx, src).parse_module()
+    allp = get_all_snax_passes()
+    for name in PASSES.split(","):
+        allp[name]()().apply(ctx, module)
+        module.verify()
+    return module
+
+
+def tile_entry(case, j):
+    """(array, effective offset, invariant): a tile that shares the loop's lower-bound VALUE adds it to its offset"""
+    t = case["tiles"][j]
+    a, off = t[0], t[1]
+    inv = bool(t[2]) if len(t) > 2 else False
+    share = bool(t[3]) if len(t) > 3 else False
+    if share:
+        off = case["lb"][0]
+    return a, off, inv
+
+
 # ------------------------------------------------------------------------------------------------ rendering
 def opnd_name(o):
     return {"t": "%t", "b": "%b", "x": "%x"}[o[0]] + str(o[1])
@@ -52,11 +76,28 @@ def render(case):
     for x in sorted(exts):
         L.append(f'%x{x} = "test.op"() : () -> {T}')
     for name in ("lb", "ub", "step"):
-        v, const = case[name]
+        v, const = case[name][0], case[name][1]
         if const:
             L.append(f"%{name} = arith.constant {v} : index")
+        elif len(case[name]) > 2 and case[name][2]:
+            # a computed run-time value
+            L.append(f'%{name}p = "test.op"() {{dyn = {v - 1} : i64}} : () -> index')
+            L.append(f'%{name}q = "test.op"() {{dyn = 1 : i64}} : () -> index')
+            L.append(f"%{name} = arith.addi %{name}p, %{name}q : index")
         else:
             L.append(f'%{name} = "test.op"() {{dyn = {v} : i64}} : () -> index')
+    extra = case.get("extra")
+
+    def extra_loop():
+        # another loop that shares the SSA value of the lower bound (and the step) with the pipelined loop
+        return [f"%eub = arith.constant {case['lb'][0] + extra['n']} : index",
+                f"%A90 = memref.alloc() : {BIG}", f'%x90 = "test.op"() : () -> {T}',
+                "scf.for %k = %lb to %eub step %step {",
+                f"  %u = memref.subview %A90[%k] [1] [1] : {BIG} to {T1}",
+                f'  "memref.copy"(%u, %x90) {{tag = 1000 : i64}} : ({T1}, {T}) -> ()',
+                '  "snax.cluster_sync_op"() : () -> ()', "}"]
+    if extra and extra["where"] == "before":
+        L += extra_loop()
     B = []
     j = 0
     nidx = 0
@@ -64,7 +105,14 @@ def render(case):
         if t[0] == "idx":
             if j < len(tiles):
                 a, off = tiles[j][0], tiles[j][1]
-                if len(tiles[j]) > 2 and tiles[j][2]:
+                if len(tiles[j]) > 3 and tiles[j][3]:
+                    # the index computation uses the SSA value that is also the loop's lower bound (a shared %c0)
+                    if tiles[j][2]:
+                        B.append(f"  %t{j} = memref.subview %A{a}[%lb] [1] [1] : {BIG} to {T1}")
+                    else:
+                        B.append(f"  %o{j} = arith.addi %i, %lb : index")
+                        B.append(f"  %t{j} = memref.subview %A{a}[%o{j}] [1] [1] : {BIG} to {T1}")
+                elif len(tiles[j]) > 2 and tiles[j][2]:
                     # a loop-invariant view computed inside the loop body
                     B.append(f"  %c{j} = arith.constant {off} : index")
                     B.append(f"  %t{j} = memref.subview %A{a}[%c{j}] [1] [1] : {BIG} to {T1}")
@@ -100,7 +148,8 @@ def render(case):
                          f'{{tag = {tag} : i64}} : ({types}) -> ()')
     if case.get("nested"):
         B.append('  scf.for %j = %lb to %ub step %step {\n    "test.op"() : () -> ()\n  }')
-    return "\n".join(L) + "\nscf.for %i = %lb to %ub step %step {\n" + "\n".join(B) + "\n}\n"
+    tail = ("\n".join(extra_loop()) + "\n") if extra and extra["where"] == "after" else ""
+    return "\n".join(L) + "\nscf.for %i = %lb to %ub step %step {\n" + "\n".join(B) + "\n}\n" + tail
 
 
 # ------------------------------------------------------------------------------------------------ reading IR
@@ -129,7 +178,7 @@ class Walker:
         self.epochs = [[]]
         self.neg = []
         self.block = module.body.block
-        fors = [o for o in self.block.ops if isinstance(o, scf.ForOp)]
+        fors = [o for o in self.block.ops if isinstance(o, scf.ForOp) and not _hint(o.body.block.args[0]).startswith("k")]
         if len(fors) != 1:
             raise Unrecognised(f"{len(fors)} top-level loops")
         self.for_op = fors[0]
@@ -146,13 +195,18 @@ class Walker:
     def _add(self, a, b):
         if not self.symbolic:
             return a + b
+        if a[0] == "dyn" and b[0] == "dyn":
+            return ("dyn", a[1] + b[1])
         if a[0] is not None and b[0] is not None:
             return ("opaque", 0)
         base = a[0] if a[0] is not None else b[0]
         return (base, a[1] + b[1])
 
     def run(self):
-        self.walk(self.block, top=True)
+        try:
+            self.walk(self.block, top=True)
+        except KeyError as e:
+            raise Unrecognised(f"a value is used before its definition ({type(e.args[0]).__name__} {getattr(e.args[0], 'name_hint', None)})")
         return self
 
     def walk(self, block, top=False):
@@ -231,8 +285,8 @@ class Walker:
             elif isinstance(op, snax.ClusterSyncOp):
                 self.epochs.append([])
             elif isinstance(op, scf.ForOp):
-                if op is not self.for_op:
-                    continue  # the nested marker loop of the generator (no events)
+                if op is not self.for_op and self.symbolic:
+                    continue  # the nested marker loop / the extra loop of the generator: not part of the slot structure
                 iv = op.body.block.args[0]
                 if self.symbolic:
                     outer = self.epochs
@@ -304,10 +358,9 @@ def _slot_json(events):
     return [[tag, [_opnd_json(v) for v in ins], [_opnd_json(v) for v in outs]] for tag, _k, ins, outs in events]
 
 
-def structure_of(case, out_text):
+def structure_of(case, mod):
     """canonical JSON of the real IR's slot structure; index expressions are [base, offset] with base in
     {None (constant), 'iv', 'ub'}: value = base + offset"""
-    mod = snaxrun.parse(out_text)
     w = _SymWalker(mod, case)
     r = w.result()
     lbv, stepv, body = r["loop"]
@@ -359,8 +412,8 @@ def original_structure(case):
 
     def o(v):
         if v[0] == "t":
-            a, off = tiles[v[1]][0], tiles[v[1]][1]
-            return ["tile", a, [None, off] if len(tiles[v[1]]) > 2 and tiles[v[1]][2] else ["iv", off]]
+            a, off, inv = tile_entry(case, v[1])
+            return ["tile", a, [None, off] if inv else ["iv", off]]
         return [{"b": "alloc", "x": "ext"}[v[0]], v[1]]
     for t in case["body"]:
         if t[0] == "op":
@@ -372,7 +425,7 @@ def original_structure(case):
         return {"unclosed_body": True, "prologue": 0}
 
     def b(name):
-        v, const = case[name]
+        v, const = case[name][0], case[name][1]
         return [None, v] if const else ["dyn", v]
     return {"prologue": [], "lb": b("lb"), "step": b("step"), "body": body, "epilogue": []}
 
@@ -386,8 +439,7 @@ def loc_of(v, neg):
     return v  # ("buf", b, copy) | ("ext", k)
 
 
-def machine_epochs(text, case):
-    mod = snaxrun.parse(text)
+def machine_epochs(mod, case):
     w = Walker(mod, False, case).run()
     neg = list(w.neg)
     eps = []
@@ -447,7 +499,8 @@ def has_trailing(case):
 
 def tiles_misaligned(case):
     """clause TilesAligned violated: two views of one array that are not the same loop-variant element"""
-    ts = [(t[0], t[1], bool(t[2]) if len(t) > 2 else False) for t in case["tiles"]]
+    ts = [tile_entry(case, j) for j in range(len(case["tiles"]))] if "lb" in case else [
+        (t[0], t[1], bool(t[2]) if len(t) > 2 else False) for t in case["tiles"]]
     return any(a == a2 and (o != o2 or i or i2) for (a, o, i), (a2, o2, i2) in itertools.combinations(ts, 2))
 
 
@@ -524,6 +577,40 @@ def view_case(rng, S, N):
             t = [t[0], t[1], t[2], [["t", j] if v == ["b", b] else v for v in t[3]], [["t", j] if v == ["b", b] else v for v in t[4]]]
         body.append(t)
     return dict(c, body=body, kind="view")
+
+
+def share_case(rng, S, N):
+    """the SSA value used as lower bound (a shared `%c0`) has other users: index computations of the tiles inside the loop
+    body, and / or the bounds of another loop before or after the pipelined one"""
+    c = chain_case(rng, S, N, lb=rng.choice([0, 0, 0, 0, 1]), noise=rng.random() < 0.5)
+    c["ub"][0] += c["lb"][0]
+    used = sorted({v[1] for t in c["body"] if t[0] == "op" for v in t[3] + t[4] if v[0] == "t"})
+    how = rng.choice(["tiles", "tiles", "loop", "both"])
+    if how in ("tiles", "both"):
+        for j in rng.sample(used, rng.choice([1, 1, len(used)])):
+            t = c["tiles"][j]
+            c["tiles"][j] = [t[0], t[1], rng.random() < 0.25 and not any(
+                v == ["t", j] for tk in c["body"] if tk[0] == "op" for v in tk[4]), True]
+    if how in ("loop", "both"):
+        c["extra"] = {"where": rng.choice(["before", "after"]), "n": rng.choice([1, 3, 4])}
+    return dict(c, kind="sharelb")
+
+
+def dyn_cases(rng, per_combo):
+    """lb / ub / step as run-time values (opaque op result, or computed from two of them) in every combination, with
+    several run-time values including empty ranges"""
+    for dyn in itertools.chain.from_iterable(itertools.combinations(("lb", "ub", "step"), k) for k in range(0, 4)):
+        for _ in range(per_combo):
+            S = rng.choice([2, 2, 3, 4])
+            lb = rng.choice([0, 1, 2, 3, 6, 9]) if "lb" in dyn else rng.choice([0, 0, 0, 2])
+            step = rng.choice([1, 1, 1, 2]) if "step" in dyn else rng.choice([1, 1, 1, 3])
+            ub = rng.choice([0, 3, 5, 6, 8])
+            c = chain_case(rng, S, ub, lb=lb, step=step, dyn=dyn, noise=rng.random() < 0.4)
+            for name in dyn:
+                c[name] = c[name] + [rng.random() < 0.4]
+            if rng.random() < 0.2:
+                c["extra"] = {"where": rng.choice(["before", "after"]), "n": 2}
+            yield dict(c, kind="dynbounds")
 
 
 def mutate_shape(rng, case):
@@ -613,7 +700,8 @@ class C15(Prop):
         "index ops are pure functions of the loop index (here: subviews A[i + off] and loop-invariant subviews A[off])",
         "the input loop itself is race-free between barriers (otherwise 'the sequential loop' has no single meaning)",
     ]
-    rule = ("loops with 1..5 stages of copies/kernels, trip counts 0..8, lb/step/ub constant or dynamic, 2..4 tiles, shared read-only / "
+    rule = ("loops with 1..5 stages of copies/kernels, trip counts 0..8, lb/step/ub constant or run-time values (opaque or computed, every "
+            "combination, empty ranges), the lb SSA value shared with tile index computations and with another loop before/after, 2..4 tiles, shared read-only / "
             "write-only / external buffers, multi-op stages, plus irregular shapes; non-trivial = the real passes pipelined the loop")
 
     def cases(self, rng, tier):
@@ -621,6 +709,7 @@ class C15(Prop):
         for S in (2, 3, 4):
             for N in range(0, 9):
                 yield chain_case(random.Random(S * 100 + N), S, N, noise=False)
+        yield from dyn_cases(random.Random(rng.getrandbits(48)), 4 if tier == "quick" else 40)
         n = 260 if tier == "quick" else 6000
         for _ in range(n):
             r = random.Random(rng.getrandbits(48))
@@ -631,12 +720,14 @@ class C15(Prop):
                 yield chain_case(r, S, N)
             elif u < 0.63:
                 yield view_case(r, max(S, 2), max(N, 2) if r.random() < 0.8 else N)
-            elif u < 0.72:
+            elif u < 0.70:
+                yield share_case(r, max(S, 2), max(N, S) if r.random() < 0.8 else N)
+            elif u < 0.76:
                 lb = r.choice([0, 1, 2, 4])
                 step = r.choice([1, 1, 2, 3])
                 dyn = r.choice([(), ("ub",), ("lb",), ("step",), ("lb", "ub", "step")])
                 yield dict(chain_case(r, S, lb + N * step, lb=lb, step=step, dyn=dyn), kind="bounds")
-            elif u < 0.78:
+            elif u < 0.81:
                 yield dict(chain_case(r, max(S, 2), N, alias=True), kind="alias")
             else:
                 yield mutate_shape(r, chain_case(r, max(S, 2), N))
@@ -648,8 +739,9 @@ class C15(Prop):
             snaxrun.parse(src).verify()
         except Exception as e:
             return {"invalid_input": type(e).__name__}
-        out = snaxrun.run_passes(src, PASSES)
-        if not any(t[0] == "op" for t in case["body"]) and "scf.for" not in out:
+        from xdsl.dialects import scf
+        out = run_real(src)
+        if not any(t[0] == "op" for t in case["body"]) and not any(isinstance(o, scf.ForOp) for o in out.walk()):
             return {"declined": True}   # a loop without effects is erased as dead code
         try:
             st = structure_of(case, out)
@@ -662,13 +754,12 @@ class C15(Prop):
     # -- model ----------------------------------------------------------------------------------
     def requests(self, case):
         def v(name):
-            x, const = case[name]
-            return x if const else None
+            return case[name][0] if case[name][1] else None
         body = []
         for t in case["body"]:
             body.append(["op", t[1], t[3], t[4]] if t[0] == "op" else [t[0]])
         return [{"fn": "c15.run", "args": {"lb": v("lb"), "ub": v("ub"), "step": v("step"), "nested": bool(case.get("nested")),
-                                           "body": body, "tiles": case["tiles"]}}]
+                                           "body": body, "tiles": [list(tile_entry(case, j)) for j in range(len(case["tiles"]))]}}]
 
     def model(self, case, answers):
         try:
@@ -694,8 +785,8 @@ class C15(Prop):
 
         def o(v):
             if v[0] == "t":
-                a_, off = tiles[v[1]][0], tiles[v[1]][1]
-                return ["tile", a_, [None, off] if len(tiles[v[1]]) > 2 and tiles[v[1]][2] else ["iv", off]]
+                a_, off, inv = tile_entry(case, v[1])
+                return ["tile", a_, [None, off] if inv else ["iv", off]]
             return [{"b": "alloc", "x": "ext"}[v[0]], v[1]]
         for t in p["trailing"]:
             if t == "sync":
@@ -728,12 +819,12 @@ class C15(Prop):
             return []
         src = render(case)
         try:
-            e_in, neg_in = machine_epochs(src, case)
+            e_in, neg_in = machine_epochs(snaxrun.parse(src), case)
         except Unrecognised:
             return []
         if races(e_in) or neg_in:
             return []  # the input is outside the quantifier (racy between its own barriers)
-        out = snaxrun.run_passes(src, PASSES)
+        out = run_real(src)
         try:
             e_out, neg_out = machine_epochs(out, case)
         except Unrecognised as e:
@@ -781,9 +872,11 @@ class C15(Prop):
 
     def shrink(self, case):
         # fewer iterations, fewer operands, fewer tokens
-        v, c = case["ub"]
+        v = case["ub"][0]
         if v > 0:
-            yield dict(case, ub=[v - 1, c])
+            yield dict(case, ub=[v - 1] + list(case["ub"][1:]))
+        if case.get("extra"):
+            yield {k: x for k, x in case.items() if k != "extra"}
         body = case["body"]
         for i, t in enumerate(body):
             if t[0] == "op":
